@@ -9,8 +9,8 @@ conversion, arma2psd(sides='centerdc').
 """
 import numpy as np
 
-from .. import core, tlc
-from ..kern_util import call_guard, cmp_vec
+from .. import core, tlc, obs
+from ..kern_util import call_guard, cmp_vec, scale_for, SCALES
 
 SAMPLINGS = (1.0, 4.0)
 
@@ -40,11 +40,14 @@ def replay_state(chk, st, table):
     orig = np.array(table[(n, dt, b, default)], dtype=float)
     par = parity(n)
     sampling = SAMPLINGS[(n + b + len(hist)) % 2]
-    case = {'n': n, 'dt': dt, 'basis': b, 'hist': list(hist), 'sampling': sampling, 'expect': exp}
+    # conversions are linear: every third state is replayed with the stored vector scaled by a power of two far
+    # from 1 (results un-scaled before comparison), which exposes absolute tolerances inside the conversions
+    scale = scale_for(n + b) if (n + b + len(hist)) % 3 == 2 else 1.0
+    case = {'n': n, 'dt': dt, 'basis': b, 'hist': list(hist), 'sampling': sampling, 'expect': exp, 'scale': scale}
     steps = '->'.join([default] + list(hist)) if hist else default
     try:
         p = make_object(n, dt, sampling)
-        p.psd = orig.copy()
+        p.psd = orig * scale
     except Exception as e:
         raise core.MachineryError('cannot build Spectrum(n=%d, %s): %r' % (n, dt, e))
     if p.NFFT != n or p.sides != default:
@@ -66,6 +69,7 @@ def replay_state(chk, st, table):
     last = hist[-1] if hist else default
     first_from = hist[-2] if len(hist) >= 2 else default
     obsv = p._Spectrum__psd if hasattr(p, '_Spectrum__psd') else p.psd
+    obsv = np.asarray(obsv) / scale if isinstance(obsv, np.ndarray) else obsv
     kind = 'direct' if len(hist) <= 1 else 'path'
     if p.sides != last:
         chk.violation('C06:sides-attr:%s:%s' % (dt, par), 'sides reads %s after assigning %s' % (p.sides, last), case)
@@ -109,6 +113,7 @@ def replay_state(chk, st, table):
                 chk.violation('C06:get_converted:%s->%s:%s:%s:raises' % (last, s, dt, par),
                               'get_converted_psd(%s) from %s raises %r' % (s, last, res), case)
                 continue
+            res = np.asarray(res) / scale if isinstance(res, np.ndarray) else res
             b2 = cmp_vec(res, e2, tol=1e-12, name='converted')
             if b2:
                 lenbad = np.asarray(res).shape != e2.shape
@@ -116,7 +121,7 @@ def replay_state(chk, st, table):
                               'get_converted_psd(%s) from %s (NFFT=%d, basis %d) is %s, expected %s'
                               % (s, last, n, b, np.asarray(res).tolist(), e2.tolist()), dict(case, target=s, observed=res))
             # purity
-            after = p._Spectrum__psd
+            after = np.asarray(p._Spectrum__psd) / scale
             if p.sides != last or cmp_vec(after, exp, tol=1e-12):
                 chk.violation('C06:get_converted:mutates:%s->%s:%s' % (last, s, dt),
                               'get_converted_psd(%s) changed the object' % s, dict(case, target=s))
@@ -146,8 +151,11 @@ def check_helpers(chk, table, maxn):
                 continue
             exp = np.array(table[(n, dt, b, to)], dtype=float)
             src = np.array(vec, dtype=float)
-            case = {'helper': hname, 'n': n, 'dt': dt, 'input': src, 'expect': exp}
-            ok, res = call_guard(getattr(tools, hname), src.copy())
+            scale = scale_for(n + b) if (n + b) % 3 else 1.0
+            case = {'helper': hname, 'n': n, 'dt': dt, 'input': src, 'expect': exp, 'scale': scale}
+            ok, res = call_guard(getattr(tools, hname), src * scale)
+            if ok and isinstance(res, np.ndarray):
+                res = res / scale
             chk.evaluations += 1
             if not ok:
                 if isinstance(res, AssertionError) and n % 2 == 1:
@@ -162,6 +170,32 @@ def check_helpers(chk, table, maxn):
                               'tools.%s(%s) = %s, expected %s' % (hname, src.tolist(), np.asarray(res).tolist(), exp.tolist()),
                               dict(case, observed=res))
             chk.count('tools-helpers', 'calls')
+
+
+def replay_helpers_conv(chk, st):
+    """HelpersConv.tla: the helpers on arbitrary (asymmetric) two-sided vectors, at three scales."""
+    from spectrum import tools
+    n, two = st['n'], np.array(st['two'], dtype=float)
+    for hname, exp in (('twosided_2_onesided', st['one']), ('twosided_2_centerdc', st['cen'])):
+        exp = np.array(exp, dtype=float)
+        for scale in (1.0,) + tuple(SCALES):
+            case = {'helper': hname, 'n': n, 'input': two, 'expect': exp, 'scale': scale}
+            ok, res = call_guard(getattr(tools, hname), two * scale)
+            chk.evaluations += 1
+            if not ok:
+                chk.violation('C06:tools.%s:%s:raises' % (hname, parity(n)), '%s raises %r' % (hname, res), case)
+                continue
+            bad = cmp_vec(np.asarray(res) / scale, exp, tol=1e-12, name=hname)
+            if bad:
+                chk.violation('C06:tools.%s:%s:asymmetric-input%s' % (hname, parity(n), '' if scale == 1.0 else ':scaled'),
+                              'tools.%s(%s * %g) / %g = %s, expected %s' % (hname, two.tolist(), scale, scale, (np.asarray(res) / scale).tolist(), exp.tolist()),
+                              dict(case, observed=res))
+    ok, back = call_guard(tools.centerdc_2_twosided, np.array(st['cen'], dtype=float))
+    if not ok or cmp_vec(back, two, tol=0):
+        chk.violation('C06:tools.centerdc_2_twosided:%s:asymmetric-input' % parity(n), 'centerdc_2_twosided does not invert twosided_2_centerdc on %s' % two.tolist(),
+                      {'helper': 'centerdc_2_twosided', 'n': n, 'input': st['cen'], 'expect': two})
+    chk.replayed += 1
+    chk.count('helpers-any-vector', 'replayed')
 
 
 def check_arma2psd_centerdc(chk, table, maxn):
@@ -232,14 +266,65 @@ def replay_tools_idx(chk, st, rng):
     chk.replayed += 1
 
 
+AXIS_SAMPLINGS = (1.0, 2.0, 4.0, 7.0, 0.05, 0.1, 0.3, 3.0, 100.0, 256.0, 1e-3, 44100.0, 48000.0)
+
+
+def axis_events(chk, prefix='C06', stride=3):
+    """ObsC06.tla: the reported axis for NFFT up to 1024 x sampling rates over eight decades (real objects)."""
+    from spectrum import Spectrum
+    quick = chk.tier == 'quick'
+    batch = obs.Batch('ObsC06')
+    nffts = list(range(1, 131 if quick else 521)) + [250, 256, 500, 512, 1000, 1001, 1023, 1024]
+    for n in nffts:
+        for si, samp in enumerate(AXIS_SAMPLINGS):
+            if quick and n > 16 and (n + si) % stride:
+                continue
+            for dt in ('real', 'complex'):
+                data = np.arange(1.0, 4.0) + (1j if dt == 'complex' else 0)
+                ok, p = call_guard(lambda: Spectrum(data, NFFT=n, sampling=samp))
+                if not ok:
+                    raise core.MachineryError('cannot build Spectrum(NFFT=%d, sampling=%r): %r' % (n, samp, p))
+                for sides in ('onesided', 'twosided', 'centerdc'):
+                    if sides == 'onesided' and dt == 'complex':
+                        continue
+                    ev = {'ev': 'axis', 'nfft': n, 'dt': dt, 'sides': sides, 'samp': repr(samp)}
+                    ok, f = call_guard(p.frequencies, sides)
+                    ev['raised'] = not ok
+                    if ok:
+                        f = np.asarray(f, dtype=float)
+                        eb = np.array(bins(sides, n), dtype=float)
+                        ev['len'] = int(len(f))
+                        ev['first'] = int(round(f[0] * n / samp)) if len(f) else 0
+                        ev['last'] = int(round(f[-1] * n / samp)) if len(f) else 0
+                        ev['dev'] = obs.q(np.max(np.abs(f - eb * samp / n)) / samp, 1e-12) if len(f) == len(eb) else 0
+                        # no argument = the current layout
+                        ok2 = True
+                        if sides != ('onesided' if dt == 'real' else 'twosided'):
+                            ok2, _ = call_guard(setattr, p, 'sides', sides)
+                        ok3, g = call_guard(p.frequencies)
+                        ev['noarg_same'] = bool(ok2 and ok3 and np.array_equal(np.asarray(g, dtype=float), f))
+                    else:
+                        ev.update(len=0, first=0, last=0, dev=0, noarg_same=False)
+                    batch.add(ev)
+    obs.validate(chk, batch, 'axis-large-nfft', lambda ev, cl: '%s:OBS:%s:%s:%s' % (prefix, cl, ev['sides'], parity(ev['nfft'])),
+                 lambda ev, cl: 'frequencies(%s) of a %s object with NFFT=%d, sampling=%s: clause "%s" fails: %s'
+                 % (ev['sides'], ev['dt'], ev['nfft'], ev['samp'], cl, ev))
+    chk.sample('axis-event', batch.events[7], 1)
+
+
 def run(chk):
     quick = chk.tier == 'quick'
     axis_proofs(chk)
+    axis_events(chk)
     rng = np.random.RandomState(600 + chk.seed)
     core.run_jobs(chk, [{'module': 'ToolsIdx', 'part': 'tools-index-functions',
                          'cfg': tlc._cfg_text(constants={'MaxN': 7 if quick else 12},
                                               invariants=['CshiftPermutation', 'CshiftPeriod', 'TwosidedSymmetric']),
-                         'replay': lambda st: replay_tools_idx(chk, st, rng)}])
+                         'replay': lambda st: replay_tools_idx(chk, st, rng)},
+                        {'module': 'HelpersConv', 'part': 'helpers-any-vector',
+                         'cfg': tlc._cfg_text(constants={'MaxN': 8 if quick else 12},
+                                              invariants=['FoldKeepsPower', 'FoldLength', 'FoldBySign', 'CentreIsPermutation']),
+                         'replay': lambda st: replay_helpers_conv(chk, st)}])
     maxn = 9 if quick else 12
     maxh = 3 if quick else 4
     cfg = tlc._cfg_text(constants={'MaxN': maxn, 'MaxHist': maxh},
